@@ -22,9 +22,11 @@ Representation choices (none is read by the modelled code paths in a way that ch
 -/
 namespace Resume
 
-abbrev ReqId := Nat
-abbrev SId := Nat
-abbrev ExId := Nat
+/-- JSON-RPC request ids, logical stream ids and HTTP exchange ids are natural numbers (fresh names).
+(Macros rather than `abbrev`s so that `omega` sees plain `Nat`.) -/
+scoped macro "ReqId" : term => `(Nat)
+scoped macro "SId" : term => `(Nat)
+scoped macro "ExId" : term => `(Nat)
 
 /-- A server→client JSON-RPC message; `p` is its opaque wire payload. -/
 inductive Msg (α : Type) where
@@ -166,19 +168,26 @@ def appendLog {α} (sid : SId) (x : Option (Item α)) (st : Store α) : Store α
 
 def setEx {α} (ex : ExId) (f : Exch α → Exch α) (l : List (Exch α)) : List (Exch α) := l.modify ex f
 
-/-- One `w.Write` on exchange `ex`: delivered unless the writer fails. Returns whether it succeeded. -/
+/-- One `w.Write` of `o` on an exchange: delivered unless the writer fails. Returns whether it succeeded. -/
+def Exch.push {α} (e : Exch α) (o : Out α) : Exch α × Bool :=
+  match e.budget with
+  | some 0 => ({ e with lost := e.lost ++ [o] }, false)
+  | some (b + 1) => ({ e with out := e.out ++ [o], budget := some b }, true)
+  | none => ({ e with out := e.out ++ [o] }, true)
+
+def emitX {α} (exs : List (Exch α)) (ex : ExId) (o : Out α) : List (Exch α) × Bool :=
+  match exs[ex]? with
+  | none => (exs, false)
+  | some e => (setEx ex (fun e => (e.push o).1) exs, (e.push o).2)
+
+def finishX {α} (exs : List (Exch α)) (ex : ExId) : List (Exch α) :=
+  setEx ex (fun e => { e with ended := true }) exs
+
 def emit {α} (c : Conn α) (ex : ExId) (o : Out α) : Conn α × Bool :=
-  match c.exs[ex]? with
-  | none => (c, false)
-  | some e =>
-    match e.budget with
-    | some 0 => ({ c with exs := setEx ex (fun e => { e with lost := e.lost ++ [o] }) c.exs }, false)
-    | some (b + 1) => ({ c with exs := setEx ex (fun e => { e with out := e.out ++ [o], budget := some b }) c.exs }, true)
-    | none => ({ c with exs := setEx ex (fun e => { e with out := e.out ++ [o] }) c.exs }, true)
+  ({ c with exs := (emitX c.exs ex o).1 }, (emitX c.exs ex o).2)
 
 /-- the HTTP handler of `ex` returns -/
-def finish {α} (c : Conn α) (ex : ExId) : Conn α :=
-  { c with exs := setEx ex (fun e => { e with ended := true }) c.exs }
+def finish {α} (c : Conn α) (ex : ExId) : Conn α := { c with exs := finishX c.exs ex }
 
 def dedup : List ReqId → List ReqId
   | [] => []
@@ -197,45 +206,64 @@ def wfail {α} (c : Conn α) (ex : ExId) : Conn α :=
 
 /-! ### POST (`servePOST`) -/
 
+/-- an exchange answered with a bare status (202, 400, 404, 409) -/
+def statusEx {α} (c : Conn α) (code : Nat) (sid : SId := 0) : Conn α :=
+  { c with exs := c.exs ++ [{ kind := .status code, ended := true, stream := sid }] }
+
+/-- does `newStream` call `EventStore.Open`? -/
+def opens {α} (c : Conn α) (ver : Ver) : Bool := c.cfg.hasStore && !ver.isNew
+
+def useSSE {α} (c : Conn α) (listen : Bool) : Bool := !c.cfg.jsonResponse || listen
+
+/-- is a priming event written (and stored)? SSE ∧ store ∧ 2025-11-25 ≤ version < 2026-07-28 -/
+def primed {α} (c : Conn α) (listen : Bool) (ver : Ver) : Bool :=
+  useSSE c listen && c.cfg.hasStore && ver.ge1125 && !ver.isNew
+
+/-- the store after `newStream` (Open) and the priming `Append` -/
+def postStore {α} (c : Conn α) (listen : Bool) (ver : Ver) : Store α :=
+  let st1 := if opens c ver then openLog c.nextSid c.store else c.store
+  if primed c listen ver then appendLog c.nextSid none st1 else st1
+
+/-- duplicate in-flight id: 400, nothing registered (the drawn stream id stays visible only through Open) -/
+def postDup {α} (c : Conn α) (ver : Ver) : Conn α :=
+  statusEx { c with store := if opens c ver then openLog c.nextSid c.store else c.store, nextSid := c.nextSid + 1 } 400 c.nextSid
+
+/-- the stream registered for the calls of a POST -/
+def newStream {α} (c : Conn α) (calls : List ReqId) (listen : Bool) (ver : Ver) : Stream α :=
+  { id := c.nextSid, attached := some c.exs.length, opn := true, next := if primed c listen ver then 1 else 0,
+    requests := calls, json := if useSSE c listen then none else some [], listen := listen,
+    v1125 := ver.ge1125, calls := calls }
+
+/-- registration (one `c.mu` section): `streams[s] = stream`, `requestStreams[id] = s` -/
+def register {α} (c : Conn α) (calls : List ReqId) (listen : Bool) (ver : Ver) (budget : Option Nat) : Conn α :=
+  { c with nextSid := c.nextSid + 1, streams := c.streams ++ [newStream c calls listen ver],
+           reqStreams := fun r => if r ∈ calls then some c.nextSid else c.reqStreams r,
+           exs := c.exs ++ [{ kind := if useSSE c listen then .sse else .json, budget := budget, stream := c.nextSid, «from» := 0 }],
+           hist := fun k => if k = c.nextSid then some (calls, listen) else c.hist k,
+           store := postStore c listen ver }
+
+def postNew {α} (c : Conn α) (calls : List ReqId) (listen : Bool) (ver : Ver) (budget : Option Nat) : Conn α :=
+  let c2 := register c calls listen ver budget
+  let c3 := if primed c listen ver then (emit c2 c.exs.length (.prime c.nextSid 0)).1 else c2
+  -- publish, then `hangResponse`: on a closed session (`c.done` closed) the handler returns at once
+  if c.isDone then cut c3 c.exs.length else c3
+
 def post {α} (c : Conn α) (calls : List ReqId) (listen : Bool) (ver : Ver) (budget : Option Nat) : Conn α :=
-  let ex := c.exs.length
-  let calls := dedup calls           -- `calls` is a Go map
-  if calls = [] then
-    -- no calls: publish and answer 202 (no logical stream)
-    { c with exs := c.exs ++ [{ kind := .status 202, ended := true }] }
-  else
-    let sid := c.nextSid
-    let opens := c.cfg.hasStore && !ver.isNew
-    -- `newStream`: draw an id, `EventStore.Open` (before the duplicate check)
-    let st1 := if opens then openLog sid c.store else c.store
-    if calls.any (fun r => (c.reqStreams r).isSome) then
-      -- duplicate in-flight id: 400, nothing registered (the drawn id stays visible only through Open)
-      { c with store := st1, nextSid := sid + 1,
-               exs := c.exs ++ [{ kind := .status 400, ended := true, stream := sid }] }
-    else
-      let useSSE := !c.cfg.jsonResponse || listen
-      let primed := useSSE && c.cfg.hasStore && ver.ge1125 && !ver.isNew
-      let s : Stream α := { id := sid, attached := some ex, opn := true, next := if primed then 1 else 0,
-                            requests := calls, json := if useSSE then none else some [], listen := listen,
-                            v1125 := ver.ge1125, calls := calls }
-      let e : Exch α := { kind := if useSSE then .sse else .json, budget := budget, stream := sid, «from» := 0 }
-      let c2 : Conn α := { c with nextSid := sid + 1, streams := c.streams ++ [s],
-                                  reqStreams := fun r => if r ∈ calls then some sid else c.reqStreams r,
-                                  exs := c.exs ++ [e],
-                                  hist := fun k => if k = sid then some (calls, listen) else c.hist k,
-                                  store := if primed then appendLog sid none st1 else st1 }
-      let c3 := if primed then (emit c2 ex (.prime sid 0)).1 else c2
-      -- publish, then `hangResponse`: on a closed session (`c.done` closed) the handler returns at once
-      if c.isDone then cut c3 ex else c3
+  if dedup calls = [] then statusEx c 202                      -- no calls: publish, 202 (`calls` is a Go map: `dedup`)
+  else if (dedup calls).any (fun r => (c.reqStreams r).isSome) then postDup c ver
+  else postNew c (dedup calls) listen ver budget
 
 /-! ### WRITE (`streamableServerConn.Write` + `deliverLocked`) -/
 
+/-- the request a write relates to -/
+def related {α} (c : Conn α) (msg : Msg α) (ctx : Option ReqId) : Option ReqId :=
+  match msg with
+  | .resp id _ => some id
+  | _ => if c.cfg.jsonResponse then none else ctx
+
 /-- the write-side routing decision (first critical section, under `c.mu`) -/
 def route {α} (c : Conn α) (msg : Msg α) (ctx : Option ReqId) : Option (Stream α) :=
-  let related : Option ReqId := match msg with
-    | .resp id _ => some id
-    | _ => if c.cfg.jsonResponse then none else ctx
-  match related with
+  match related c msg ctx with
   | some r =>
     match c.reqStreams r with
     | some sid => findStream sid c.streams
@@ -249,98 +277,123 @@ def eraseAll (r : ReqId) : List ReqId → List ReqId
   | [] => []
   | x :: t => if x = r then eraseAll r t else x :: eraseAll r t
 
+/-- `deliverLocked` on stream `s` whose outstanding requests become `reqs` (`done` = none left and not the
+standalone stream).  Returns the exchange table, the updated stream and whether a write reached the
+response without error (buffering a JSON message counts as delivered). -/
+def deliver {α} (exs : List (Exch α)) (s : Stream α) (it : Item α) (evid : Option (SId × Nat))
+    (reqs : List ReqId) (done : Bool) : List (Exch α) × Stream α × Bool :=
+  match s.attached, s.opn with
+  | some ex, true =>
+    match s.json with
+    | some pend =>
+      if done then
+        ((finishX (emitX exs ex (.json (pend ++ [it]))).1 ex),
+         { s with requests := reqs, json := some (pend ++ [it]), opn := false }, (emitX exs ex (.json (pend ++ [it]))).2)
+      else (exs, { s with requests := reqs, json := some (pend ++ [it]) }, true)
+    | none =>
+      (if done then finishX (emitX exs ex (.message evid it)).1 ex else (emitX exs ex (.message evid it)).1,
+       { s with requests := reqs, next := s.next + 1, opn := !done }, (emitX exs ex (.message evid it)).2)
+  | _, _ => (exs, { s with requests := reqs }, false)      -- "stream not connected or already closed"
+
+/-- `delete(c.requestStreams, responseTo)` -/
+def eraseResp {α} (c : Conn α) (msg : Msg α) : Conn α :=
+  match msg with
+  | .resp id _ => { c with reqStreams := fun r => if r = id then none else c.reqStreams r }
+  | _ => c
+
+/-- is the message appended to the event store? (store configured ∧ context version < 2026-07-28) -/
+def wUse {α} (c : Conn α) (ctxNew : Bool) : Bool := c.cfg.hasStore && !ctxNew
+
+def wReqs {α} (s : Stream α) (msg : Msg α) : List ReqId :=
+  match msg with
+  | .resp id _ => eraseAll id s.requests
+  | _ => s.requests
+
+def wDone {α} (s : Stream α) (msg : Msg α) : Bool := (wReqs s msg).isEmpty && s.id != 0
+
+def wDeliver {α} (c : Conn α) (s : Stream α) (msg : Msg α) (ctx : Option ReqId) (ctxNew : Bool) :
+    List (Exch α) × Stream α × Bool :=
+  deliver c.exs s ⟨msg, ctx⟩ (if wUse c ctxNew then some (s.id, s.next) else none) (wReqs s msg) (wDone s msg)
+
+/-- second critical section, under `s.mu`: append to the store, then deliver; a finished stream is deleted -/
+def writeTo {α} (c : Conn α) (s : Stream α) (msg : Msg α) (ctx : Option ReqId) (ctxNew : Bool) : Conn α × Res :=
+  ({ c with store := if wUse c ctxNew then appendLog s.id (some ⟨msg, ctx⟩) c.store else c.store,
+            exs := (wDeliver c s msg ctx ctxNew).1,
+            streams := if wDone s msg then delStream s.id c.streams else setStream (wDeliver c s msg ctx ctxNew).2.1 c.streams },
+   if wUse c ctxNew || (wDeliver c s msg ctx ctxNew).2.2 then .ok else .rejected)
+
 def writeR {α} (c : Conn α) (msg : Msg α) (ctx : Option ReqId) (ctxNew : Bool) : Conn α × Res :=
   if msg.isCall && (c.cfg.stateless || c.cfg.noSession) then (c, .rejected) else
-  let tgt := route c msg ctx
-  let c1 : Conn α := match msg with
-    | .resp id _ => { c with reqStreams := fun r => if r = id then none else c.reqStreams r }
-    | _ => c
-  match tgt with
-  | none => (c1, .rejected)                       -- "write to closed stream"
+  match route c msg ctx with
+  | none => (eraseResp c msg, .rejected)                       -- "write to closed stream"
   | some s =>
-    if c.isDone then (c1, .broken) else            -- "session is closed"
-    let it : Item α := ⟨msg, ctx⟩
-    let useStore := c.cfg.hasStore && !ctxNew
-    -- second critical section, under `s.mu`: append, then deliver
-    let c2 : Conn α := if useStore then { c1 with store := appendLog s.id (some it) c1.store } else c1
-    let evid : Option (SId × Nat) := if useStore then some (s.id, s.next) else none
-    let reqs := match msg with
-      | .resp id _ => eraseAll id s.requests
-      | _ => s.requests
-    let done := reqs.isEmpty && s.id != 0
-    match s.attached, s.opn with
-    | some ex, true =>
-      match s.json with
-      | some pend =>
-        let pend' := pend ++ [it]
-        if done then
-          let r := emit c2 ex (.json pend')
-          (finish { r.1 with streams := delStream s.id r.1.streams } ex,
-           if useStore || r.2 then .ok else .rejected)
-        else
-          ({ c2 with streams := setStream { s with requests := reqs, json := some pend' } c2.streams }, .ok)
-      | none =>
-        let r := emit c2 ex (.message evid it)
-        let res := if useStore || r.2 then Res.ok else Res.rejected
-        if done then
-          (finish { r.1 with streams := delStream s.id r.1.streams } ex, res)
-        else
-          ({ r.1 with streams := setStream { s with requests := reqs, next := s.next + 1 } r.1.streams }, res)
-    | _, _ =>
-      -- "stream not connected or already closed": stored only (if there is a store)
-      let c3 : Conn α := if done then { c2 with streams := delStream s.id c2.streams }
-                         else { c2 with streams := setStream { s with requests := reqs } c2.streams }
-      (c3, if useStore then .ok else .rejected)
+    if c.isDone then (eraseResp c msg, .broken)                -- "session is closed"
+    else writeTo (eraseResp c msg) s msg ctx ctxNew
 
 /-! ### GET (`serveGET` / `acquireStream`) -/
+
+def Hdr.sid : Hdr → SId
+  | .ok sid _ => sid
+  | _ => 0
+
+/-- first index to replay: Last-Event-ID index + 1, or 0 without the header -/
+def Hdr.from : Hdr → Nat
+  | .ok _ idx => idx + 1
+  | _ => 0
+
+def Hdr.has : Hdr → Bool
+  | .ok _ _ => true
+  | _ => false
 
 /-- the stored payloads after index `from − 1`, empty ones skipped (as `acquireStream` does) -/
 def toReplay {α} (log : List (Option (Item α))) («from» : Nat) : List (Item α) :=
   (log.drop «from»).filterMap id
 
+/-- `EventStore.After`; `none` = it failed (unknown stream, or `SessionClosed` removed the session) -/
+def replayItems {α} (c : Conn α) (sid : SId) («from» : Nat) : Option (List (Item α)) :=
+  if c.cfg.hasStore then
+    if c.isDone then none else (c.store sid).map (fun log => toReplay log «from»)
+  else some []
+
 /-- replay loop: ids are `from, from+1, …` counted over the replayed items; stops at the first failed write -/
 def replayLoop {α} (c : Conn α) (ex : ExId) (sid : SId) : Nat → List (Item α) → Conn α × Bool
   | _, [] => (c, true)
   | k, it :: rest =>
-    let r := emit c ex (.message (some (sid, k)) it)
-    if r.2 then replayLoop r.1 ex sid (k + 1) rest else (r.1, false)
+    if (emit c ex (.message (some (sid, k)) it)).2 then replayLoop (emit c ex (.message (some (sid, k)) it)).1 ex sid (k + 1) rest
+    else ((emit c ex (.message (some (sid, k)) it)).1, false)
+
+/-- the new exchange of a GET; the standalone stream first gets the `: ok` comment -/
+def getOpen {α} (c : Conn α) (sid : SId) («from» : Nat) (budget : Option Nat) : Conn α :=
+  if sid = 0 then
+    (emit { c with exs := c.exs ++ [{ kind := .sse, budget := budget, stream := sid, «from» := «from» }] } c.exs.length .comment).1
+  else { c with exs := c.exs ++ [{ kind := .sse, budget := budget, stream := sid, «from» := «from» }] }
+
+/-- set up delivery state: `s.w = w; s.done = make(…); s.lastIdx = lastIdx; s.protocolVersion = …` -/
+def attach {α} (c : Conn α) (s : Stream α) (ex : ExId) (next : Nat) (ver : Ver) (closed : Bool) : Conn α :=
+  if closed then   -- `hangResponse` returns at once on a closed session
+    cut { c with streams := setStream { s with attached := some ex, opn := true, next := next, v1125 := ver.ge1125 } c.streams } ex
+  else { c with streams := setStream { s with attached := some ex, opn := true, next := next, v1125 := ver.ge1125 } c.streams }
+
+def getGo {α} (c : Conn α) (sid : SId) («from» : Nat) (ver : Ver) (budget : Option Nat) (items : List (Item α)) : Conn α :=
+  if (replayLoop (getOpen c sid «from» budget) c.exs.length sid «from» items).2 then
+    match findStream sid c.streams with
+    | none => finish (replayLoop (getOpen c sid «from» budget) c.exs.length sid «from» items).1 c.exs.length   -- temporary (replay-only) stream
+    | some s =>
+      if s.requests.isEmpty && s.id != 0 then                                                                -- `doneLocked`
+        finish (replayLoop (getOpen c sid «from» budget) c.exs.length sid «from» items).1 c.exs.length
+      else attach (replayLoop (getOpen c sid «from» budget) c.exs.length sid «from» items).1 s c.exs.length
+             («from» + items.length) ver c.isDone
+  else finish (replayLoop (getOpen c sid «from» budget) c.exs.length sid «from» items).1 c.exs.length         -- a replay write failed
 
 def get {α} (c : Conn α) (hdr : Hdr) (ver : Ver) (budget : Option Nat) : Conn α :=
-  let ex := c.exs.length
-  let fail (code : Nat) : Conn α := { c with exs := c.exs ++ [{ kind := .status code, ended := true }] }
-  match hdr with
-  | .bad => fail 400                                   -- malformed Last-Event-ID
-  | _ =>
-    let sid : SId := match hdr with | .ok sid _ => sid | _ => 0
-    let «from» : Nat := match hdr with | .ok _ idx => idx + 1 | _ => 0
-    let hasHdr : Bool := match hdr with | .ok _ _ => true | _ => false
-    if hasHdr && !c.cfg.hasStore then fail 400 else     -- "stream replay unsupported"
-    let st := findStream sid c.streams
-    match st.bind (·.attached) with
-    | some _ => fail 409                               -- claimed by another request
+  if hdr = .bad then statusEx c 400                                    -- malformed Last-Event-ID
+  else if hdr.has && !c.cfg.hasStore then statusEx c 400               -- "stream replay unsupported"
+  else match (findStream hdr.sid c.streams).bind (·.attached) with
+    | some _ => statusEx c 409                                         -- claimed by another request
     | none =>
-      let replay : Option (List (Item α)) :=
-        if c.cfg.hasStore then
-          if c.isDone then none                        -- `SessionClosed` removed the session from the store
-          else (c.store sid).map (fun log => toReplay log «from»)
-        else some []
-      match replay with
-      | none => fail 400                               -- `After` failed
-      | some items =>
-        let e : Exch α := { kind := .sse, budget := budget, stream := sid, «from» := «from» }
-        let c1 : Conn α := { c with exs := c.exs ++ [e] }
-        let c2 := if sid = 0 then (emit c1 ex .comment).1 else c1
-        let r := replayLoop c2 ex sid «from» items
-        if !r.2 then finish r.1 ex else
-        match st with
-        | none => finish r.1 ex                        -- temporary (replay-only) stream
-        | some s =>
-          if s.requests.isEmpty && s.id != 0 then finish r.1 ex      -- `doneLocked`
-          else
-            let s' : Stream α := { s with attached := some ex, opn := true, next := «from» + items.length, v1125 := ver.ge1125 }
-            let c4 : Conn α := { r.1 with streams := setStream s' r.1.streams }
-            -- `hangResponse` returns at once on a closed session
-            if c.isDone then cut c4 ex else c4
+      match replayItems c hdr.sid hdr.from with
+      | none => statusEx c 400                                         -- `After` failed
+      | some items => getGo c hdr.sid hdr.from ver budget items
 
 /-! ### SCLOSE (`CloseSSEStream` → `stream.close`) and END (`Close`) -/
 
